@@ -14,7 +14,8 @@ PROPERTY = 'C01'
 RULE = ('event sequences from boot over {connect ok/refused/timeout, peer OPEN valid(hold 90)/hold 0/hold 3/bad version/'
         'wrong AS/hold 1/hold 2, KEEPALIVE, UPDATE, NOTIFICATION version-error/other, ROUTE-REFRESH, bad marker, bad '
         'length, unknown type, peer close, time to next timer, manual stop/start}, only physically possible events, '
-        'single-connection regime. BFS with fingerprint de-duplication + random walks. Non-trivial = sequence leaves '
+        'single-connection regime. BFS with fingerprint de-duplication + random walks + the grid NOTIFICATION error code '
+        '0..255 x subcodes x data length x {OpenSent, OpenConfirm, Established}. Non-trivial = sequence leaves '
         'Connect and has an event in OpenSent or later; distinct = distinct (fingerprint, event) pairs (BFS) / '
         'distinct sequences (walks).')
 ASSUMPTIONS = [
@@ -71,6 +72,8 @@ def shards(tier):
         for i in range(nshard):
             out.append({'name': 'bfs-c%d-%d' % (ci, i), 'kind': 'bfs', 'cfg': cfg, 'prefixes': pf[i::nshard],
                         'depth': DEPTH[tier]})
+    for i in range(4):
+        out.append({'name': 'notification-codes-%d' % i, 'kind': 'notif', 'part': i, 'parts': 4})
     nw = 150 if tier == 'quick' else 2500
     for i in range(4 if tier == 'quick' else 16):
         out.append({'name': 'walks-%d' % i, 'kind': 'walk', 'examples': nw, 'hypothesis': True,
@@ -177,6 +180,27 @@ def run_walk(case):
 def run_shard(spec, seed, col, tier):
     if spec['kind'] == 'bfs':
         bfs(spec, col)
+    elif spec['kind'] == 'notif':
+        # every NOTIFICATION error code x a set of subcodes x data lengths in each state with a live connection:
+        # the RFC reaction (no reply, close, Idle) does not depend on the code
+        cfg = CONFIGS['quick'][0]
+        reach = {'OPENSENT': [['boot'], ['ok']], 'OPENCONFIRM': [['boot'], ['ok'], ['open', 'valid', 90]],
+                 'ESTABLISHED': [['boot'], ['ok'], ['open', 'valid', 90], ['ka']]}
+        subs = [0, 1, 2, 3, 4, 5, 6, 7, 8, 9, 10, 11, 12, 127, 128, 255]
+        k = 0
+        for code in range(256):
+            for sub in (subs if code < 16 or tier == 'thorough' else [0, 1, 255]):
+                for data in ('', '0004', '00' * 21):
+                    for state in ('OPENSENT', 'OPENCONFIRM', 'ESTABLISHED'):
+                        k += 1
+                        if k % spec['parts'] != spec['part'] or (code, sub) == (2, 1):
+                            continue
+                        path = reach[state] + [['notif', 'other', code, sub, data]]
+                        d = replay_path(cfg, path)
+                        case = {'cfg': cfg, 'events': path}
+                        col.case(case, True, labels=['notification-code-grid', 'state:' + state])
+                        for sig, detail in d.failures:
+                            col.fail(sig, case, detail)
     else:
         def body(case):
             d = run_walk(case)
